@@ -113,3 +113,43 @@ theorem returnDepositCheck_total (addrCount : Nat) (progs : List (Bytes × Bool)
     | none => exact ite_np (fun _ => val_np _) (fun _ => val_np _)
 
 end ElaVerif.CoinbaseTotal
+
+namespace ElaVerif.CoinbaseTotal
+open ElaVerif.Script
+
+theorem registerCRKey_total (code : Bytes) : registerCRKey true code ≠ .panic := by
+  unfold registerCRKey
+  apply ite_np (fun _ => val_np _); intro h0
+  cases hs : isSchnorr code with
+  | panic => exact absurd hs (isSchnorr_total code)
+  | val sch =>
+    simp only [R.bind_val]
+    cases sch
+    · simp only [Bool.false_eq_true, if_false]
+      rw [idx_lt (by omega)]
+      simp only [R.bind_val]
+      apply ite_np
+      · intro hc
+        have : 2 ≤ code.length := by
+          rcases hc.1 with h | h
+          · simp at h
+          · exact h
+        exact ite_np (fun h => by omega) (fun _ => val_np _)
+      · intro _; exact ite_np (fun _ => val_np _) (fun _ => val_np _)
+    · simp only [if_true]
+      have : code.length = 35 := by
+        unfold isSchnorr at hs
+        split at hs
+        · cases hs
+        · omega
+      exact ite_np (fun h => by omega) (fun _ => val_np _)
+
+theorem crcArbitersMN_total (code : Bytes) : crcArbitersMN true code ≠ .panic := by
+  unfold crcArbitersMN
+  apply ite_np (fun _ => val_np _); intro hg
+  have h2 : 2 ≤ code.length := by
+    apply Classical.byContradiction; intro hc; apply hg; exact ⟨rfl, by omega⟩
+  rw [if_neg (by omega), idx_lt (by omega), idx_lt (by omega)]
+  exact val_np _
+
+end ElaVerif.CoinbaseTotal
